@@ -71,7 +71,9 @@ class STOCH(Indicator):
                 self.reading("high", i) for i in range(index - (self.period - 1), index + 1)
             )
 
-            stoch = ((self.reading(self.input_value) - lowest) / (highest - lowest)) * 100
+            stoch = 0.0
+            if highest != lowest:
+                stoch = ((self.reading(self.input_value) - lowest) / (highest - lowest)) * 100
 
             self.managed_indicators["STOCH_data"].set_reading({"stoch": stoch})
             k = self.reading(f"{self.name}_k")
